@@ -140,11 +140,29 @@ static std::string run2(const Toks& t) {
     for (auto& x : v) { s2.push_back(x.size()); for (auto& y : x) { s3.push_back(y.size()); for (auto& z : y) { s4.push_back(z.size()); for (double u : z) sum += u; } } }
     return std::to_string(v.size()) + " " + common(s2) + " " + common(s3) + " " + common(s4) + " " + F(sum);
   }
+  // ---- calls that leave trailing arguments to their defaults
+  if (o == "dcov") { auto a = vecs(t, 1); return F(VectorTools::cov<double, double>(a.at(0), a.at(1))); }
+  if (o == "dvar") { auto a = vecs(t, 1); return F(VectorTools::var<double, double>(a.at(0))); }
+  if (o == "dsd") { auto a = vecs(t, 1); return F(VectorTools::sd<double, double>(a.at(0))); }
+  if (o == "dmeanw") { auto a = vecs(t, 1); return F(VectorTools::mean<double, double>(a.at(0), a.at(1))); }
+  if (o == "dcenterw") { auto a = vecs(t, 1); return FV(VectorTools::center<double, double>(a.at(0), a.at(1))); }
+  if (o == "dcorw") { auto a = vecs(t, 1); return F(VectorTools::cor<double, double>(a.at(0), a.at(1), a.at(2))); }
+  if (o == "dcovw") { auto a = vecs(t, 1); return F(VectorTools::cov<double, double>(a.at(0), a.at(1), a.at(2))); }
+  if (o == "dvarw") { auto a = vecs(t, 1); return F(VectorTools::var<double, double>(a.at(0), a.at(1))); }
+  if (o == "dsdw") { auto a = vecs(t, 1); return F(VectorTools::sd<double, double>(a.at(0), a.at(1))); }
+  if (o == "dcovw1") { auto a = vecs(t, 2); return F(VectorTools::cov<double, double>(a.at(0), a.at(1), a.at(2), flag(t, 1))); }
+  if (o == "dvarw1") { auto a = vecs(t, 2); return F(VectorTools::var<double, double>(a.at(0), a.at(1), flag(t, 1))); }
+  if (o == "dsdw1") { auto a = vecs(t, 2); return F(VectorTools::sd<double, double>(a.at(0), a.at(1), flag(t, 1))); }
+  if (o == "dshannon") { auto a = vecs(t, 1); return F(VectorTools::shannon<double, double>(a.at(0))); }
+  if (o == "dshannondisc") { auto a = vecs(t, 1); return F(VectorTools::shannonDiscrete<double, double>(a.at(0))); }
+  if (o == "dmidisc") { auto a = vecs(t, 1); return F(VectorTools::miDiscrete<double, double>(a.at(0), a.at(1))); }
   // ---- continuous entropy: the answer and the kernel densities it was computed from (the same
   //      estimator objects the routine builds: one row per variable, one column per point)
-  if (o == "shannoncont") {
-    auto a = vecs(t, 1); const V& v = a.at(1); double base = a.at(0).at(0);
-    double r = VectorTools::shannonContinuous<double, double>(v, base);
+  if (o == "shannoncont" || o == "dshannoncont") {
+    bool dflt = o[0] == 'd';
+    auto a = vecs(t, 1); const V& v = a.at(dflt ? 0 : 1);
+    double r = dflt ? VectorTools::shannonContinuous<double, double>(v)
+                    : VectorTools::shannonContinuous<double, double>(v, a.at(0).at(0));
     LinearMatrix<double> m(1, v.size());
     for (size_t i = 0; i < v.size(); i++) m(0, i) = v[i];
     AdaptiveKernelDensityEstimation kd(m);
@@ -152,9 +170,11 @@ static std::string run2(const Toks& t) {
     for (double it : v) { x[0] = it; d.push_back(kd.kDensity(x)); }
     return F(r) + " ; " + FV(d);
   }
-  if (o == "micont") {
-    auto a = vecs(t, 1); const V& v1 = a.at(1); const V& v2 = a.at(2); double base = a.at(0).at(0);
-    double r = VectorTools::miContinuous<double, double>(v1, v2, base);
+  if (o == "micont" || o == "dmicont") {
+    bool dflt = o[0] == 'd';
+    auto a = vecs(t, 1); const V& v1 = a.at(dflt ? 0 : 1); const V& v2 = a.at(dflt ? 1 : 2);
+    double r = dflt ? VectorTools::miContinuous<double, double>(v1, v2)
+                    : VectorTools::miContinuous<double, double>(v1, v2, a.at(0).at(0));
     LinearMatrix<double> m1(1, v1.size()), m2(1, v2.size()), m12(2, v1.size());
     for (size_t i = 0; i < v1.size(); i++) { m1(0, i) = m12(0, i) = v1[i]; m2(0, i) = m12(1, i) = v2[i]; }
     AdaptiveKernelDensityEstimation kd1(m1), kd2(m2), kd12(m12);
